@@ -81,7 +81,7 @@ def classify(fn, case, exp, got):
 
 def main(ck):
     tree = cy.Tree('C31')
-    nfun = ck.pick(320, 2400)
+    nfun = ck.pick(320, 1200)
     per_mod = ck.pick(40, 100)
     nsub = ck.pick(25, 50)
     rng = ck.rng('gen')
@@ -228,3 +228,25 @@ def main(ck):
         assumptions=['CPython 3.12.1 executing the identical source is the reference',
                      'patterns CPython rejects at compile time are discarded by the generator',
                      'only the selected case id and the names bound by the selected case are compared, not leftovers of failed cases'])
+
+
+def replay(ck, data):
+    w = data.get('witness', data)
+    tree = cy.Tree('replay')
+    d, info = tree.build_sources({'c31m': w['module_source']}, subdir='r', ext='.py')
+    inf = info['c31m']
+    if not inf['ok']:
+        print('build failed at', inf['stage'], inf['errors'][-2000:])
+        return 2
+    res = diff.run_cases(tree, d, 'c31m', [w['case']], ref=inf['src'], compare={'exc_args': False, 'log': True},
+                         setup=w.get('setup', SETUP), nproc=1)
+    for m in res.mismatches:
+        print('expected', m['exp'])
+        print('observed', m['got'])
+    for c in res.crashes:
+        print('crash', c['kind'], c['stderr'][-1500:])
+    if res.mismatches or res.crashes:
+        print('VIOLATION property=%s replay=<replayed>' % ck.pid)
+        return 1
+    print('replay: case now agrees with the reference (%d evaluated, fatal=%s)' % (res.n, res.fatal))
+    return 0 if res.n else 2
